@@ -326,3 +326,37 @@ C03 = dict(
                  "static types of individual subexpressions (typed AST) are not yet compared node by node"],
 )
 FAMILIES["C03"] = C03
+
+
+# ----------------------------------------------------------------- C13
+def _partial_case(world, c, i):
+    m = world["modes"][c["mode"] - 1]
+    return dict(id=i, pols=c["pols"], req=m["req"], store=m["store"], completions=m["completions"])
+
+
+def _mutate_partial(ev):
+    if ev.get("ev") != "Partial" or not ev.get("scratch"):
+        return None
+    ev = json.loads(json.dumps(ev))
+    r = ev["scratch"][0]
+    r["decision"] = "Deny" if r["decision"] == "Allow" else "Allow"
+    return ev
+
+
+C13 = dict(
+    family="partial", trace_module="Trace_Partial.tla",
+    models=[dict(name="mc_partial", module="MC_Partial.tla", cfg=dict(quick="MC_Partial_quick.cfg", thorough="MC_Partial_thorough.cfg"),
+                 cases=_partial_case, limit=dict(quick=2500, thorough=None))],
+    nontrivial=lambda ev: ev.get("ev") == "Partial",
+    key=lambda ev: [ev.get("pols"), ev.get("req")],
+    mutate=_mutate_partial, chunk=250,
+    rule="G: policy sets (1-3 policies) whose conditions combine 5 known atoms (true/false and an atom of each error class) with 22 atoms that mention "
+         "unknown data (comparisons, arithmetic, bare boolean use, set/record literals holding an unknown incl. records whose other field can error, "
+         "attribute access on an unknown principal, in/is/has, like, if) through &&, ||, if and !, and scope constraints, in 6 unknown modes (principal "
+         "untyped/typed unknown, resource unknown, a context attribute unknown, an entity attribute unknown, combinations); every completion of the "
+         "mode's domains (up to 120, incl. wrong-typed values for untyped unknowns) is checked: decision/must/may/definitely-* soundness, "
+         "reauthorization == from-scratch == reference. quick replays a seeded sample of 2500 of ~23500 cases.",
+    assumptions=["partial entity stores (Entities::partial) and an unknown action are not generated yet",
+                 "completions are restricted to the declared type for typed unknowns"],
+)
+FAMILIES["C13"] = C13
